@@ -697,17 +697,20 @@ func (x *c03) loopbackCases() {
 // C19 over real carriers: concurrent senders on one end, a receiver on the other, Close at the end
 // closeFlushesReal: over a real pair, k buffered sends under a flush delay that never elapses, the
 // last one a DISCONNECT, then Close: the peer must receive every one of them, in order.
-func (x *c03) closeFlushesReal(kind string, k int) {
+func (x *c03) closeFlushesReal(kind string, k int, lim int64) {
 	x.bump()
 	n := x.n
 	c := x.c
-	c.Emit("case %d closereal kind=%s k=%d", n, kind, k)
+	c.Emit("case %d closereal kind=%s k=%d lim=%d", n, kind, k, lim)
 	cl, srv, stop, err := connPair(kind)
 	if err != nil {
 		x.unavailable(n, kind, err)
 		return
 	}
 	defer stop()
+	// a read limit above every single packet and (for k > 2) below what Close flushes in one go:
+	// the limit is per packet, so it must not matter how the carrier groups the bytes
+	srv.SetReadLimit(lim)
 	cl.SetMaxWriteDelay(time.Hour)
 	var ps []packet.Generic
 	for i := 0; i < k-1; i++ {
@@ -749,8 +752,8 @@ func (x *c03) closeFlushesReal(kind string, k int) {
 	if same {
 		c.Emit("direct c19_close_flushes %d ok", n)
 	} else {
-		c.Emit("direct c19_close_flushes %d FAIL over %s: %d buffered sends (the last a DISCONNECT) were accepted, Close returned %v, the peer received %d packets then %v %s",
-			n, kind, len(ps), cerr, len(got), rerr, msg)
+		c.Emit("direct c19_close_flushes %d FAIL over %s (receiver's read limit %d, largest packet %d bytes): %d buffered sends (the last a DISCONNECT) were accepted, Close returned %v, the peer received %d packets then %v %s",
+			n, kind, lim, maxLen(ps), len(ps), cerr, len(got), rerr, msg)
 	}
 	c.Stat("close_flushes_checks", 1)
 	c.Stat("loopback_runs", 1)
@@ -815,8 +818,9 @@ func (x *c03) loopbackC19(runs int) {
 	r := c.Rng
 	for _, kind := range []string{"ws", "tcp"} {
 		x.closeUnblocksReceive(kind)
-		x.closeFlushesReal(kind, 1)
-		x.closeFlushesReal(kind, 6)
+		x.closeFlushesReal(kind, 1, 0)
+		x.closeFlushesReal(kind, 6, 0)
+		x.closeFlushesReal(kind, 8, 128)
 	}
 	for i := 0; i < runs; i++ {
 		kind := []string{"tcp", "ws"}[i%2]
@@ -830,14 +834,25 @@ func (x *c03) loopbackC19(runs int) {
 		senders := 1 + r.Intn(16)
 		per := 1 + r.Intn(10)
 		a.SetMaxWriteDelay([]time.Duration{0, time.Millisecond, 5 * time.Millisecond}[r.Intn(3)])
+		// variant (the first run per carrier, every tenth after): the receiver has a read limit above every single
+		// packet; 4 senders x 4 buffered sends, flushed only by Close, travel as one coalesced write
+		limited := i%10 < 2
+		if limited {
+			senders, per = 4, 4
+			a.SetMaxWriteDelay(time.Hour)
+			b.SetReadLimit(128)
+		}
 		recs := make([][]*sendRec, senders)
 		for id := 0; id < senders; id++ {
 			for seq := 0; seq < per; seq++ {
 				pad := r.Intn(30)
-				if r.Intn(12) == 0 {
+				if r.Intn(12) == 0 && !limited {
 					pad = 3000 + r.Intn(3000)
 				}
-				recs[id] = append(recs[id], &sendRec{seq: seq, enc: encode(senderPacket(id, seq, pad)), async: r.Intn(3) != 0})
+				if limited {
+					pad = 40 + r.Intn(20) // packets of about 55–75 bytes
+				}
+				recs[id] = append(recs[id], &sendRec{seq: seq, enc: encode(senderPacket(id, seq, pad)), async: r.Intn(3) != 0 || limited})
 			}
 		}
 		var got [][]byte
@@ -952,7 +967,8 @@ func (x *c03) loopbackC19(runs int) {
 			last[sid] = rec.seq
 		}
 		if wmsg == "" && cerr == nil && len(got) != total {
-			wmsg = fmt.Sprintf("%d sends returned nil and Close returned nil, the peer received %d packets (then %v)", total, len(got), rerr)
+			wmsg = fmt.Sprintf("over %s%s: %d sends returned nil and Close returned nil, the peer received %d packets (then %v)", kind,
+				map[bool]string{true: ", receiver's read limit 128 above every packet", false: ""}[limited], total, len(got), rerr)
 		}
 		if wmsg != "" {
 			c.Emit("direct c19_whole %d FAIL %s", n, wmsg)
